@@ -14,13 +14,15 @@ import (
 // (as when a read-fallback composite sits on top of a mirrored one), and its base fails later on: the inner
 // handler then supplies a further replacement, which has to be resumed at the right absolute offset.
 type NestedCase struct {
-	Kind       string   `json:"kind"`        // reader | chunk (all three sources)
-	OrigChunks []int    `json:"orig_chunks"` // pieces of content[:K]
-	K          int      `json:"k"`           // the original source fails after K bytes
-	MidChunks  []int    `json:"mid_chunks"`  // pieces of content[:J] of the first replacement's base
-	J          int      `json:"j"`           // the first replacement's base fails after J bytes (J > K), -1: never
-	LastChunks []int    `json:"last_chunks"` // pieces of the complete second replacement
-	Cons       Consumer `json:"consumer"`
+	Kind       string `json:"kind"`        // reader | chunk (all three sources)
+	OrigChunks []int  `json:"orig_chunks"` // pieces of content[:K]
+	K          int    `json:"k"`           // the original source fails after K bytes
+	MidChunks  []int  `json:"mid_chunks"`  // pieces of content[:J] of the first replacement's base
+	J          int    `json:"j"`           // the first replacement's base fails after J bytes (J > K), -1: never
+	LastChunks []int  `json:"last_chunks"` // pieces of the complete second replacement
+	// UnexpectedEOF: the sources' I/O errors are exactly io.ErrUnexpectedEOF instead of a status error
+	UnexpectedEOF bool     `json:"unexpected_eof,omitempty"`
+	Cons          Consumer `json:"consumer"`
 }
 
 func runNested(c NestedCase) (viols []viol, outcome string) {
@@ -28,8 +30,8 @@ func runNested(c NestedCase) (viols []viol, outcome string) {
 	size := len(e.content)
 	add := func(sig, format string, a ...any) { viols = append(viols, viol{sig, fmt.Sprintf(format, a...)}) }
 	inner := &handler{e: e, name: "inner", script: []Answer{{Kind: "buf", Buf: &BufSpec{Kind: c.Kind, Data: "C", Chunks: c.LastChunks, FailAt: -1}}}}
-	outer := &nestedOuter{e: e, mid: BufSpec{Kind: c.Kind, Data: "C", Chunks: c.MidChunks, FailAt: c.J}, inner: inner}
-	base := e.build(BufSpec{Kind: c.Kind, Data: "C", Chunks: c.OrigChunks, FailAt: c.K}, "orig", "orig")
+	outer := &nestedOuter{e: e, mid: BufSpec{Kind: c.Kind, Data: "C", Chunks: c.MidChunks, FailAt: c.J, UnexpectedEOF: c.UnexpectedEOF}, inner: inner}
+	base := e.build(BufSpec{Kind: c.Kind, Data: "C", Chunks: c.OrigChunks, FailAt: c.K, UnexpectedEOF: c.UnexpectedEOF}, "orig", "orig")
 	b := buffer.WithErrorHandler(base, outer)
 	cr := consume(b, c.Cons, e)
 	op := c.Cons.Op
@@ -129,6 +131,9 @@ func nestedReplacement(r *ev.Run) {
 									continue
 								}
 								cases = append(cases, NestedCase{Kind: kind, OrigChunks: oc, K: k, MidChunks: mc, J: jj, LastChunks: lc, Cons: co})
+								if len(lc) == 1 {
+									cases = append(cases, NestedCase{Kind: kind, OrigChunks: oc, K: k, MidChunks: mc, J: jj, LastChunks: lc, Cons: co, UnexpectedEOF: true})
+								}
 							}
 						}
 					}
@@ -136,7 +141,7 @@ func nestedReplacement(r *ev.Run) {
 			}
 		}
 	}
-	sub := r.NewSub("nested-replacement", "venum", fmt.Sprintf("the replacement supplied by the outer handler is itself a buffer with an error handler whose base fails later: original fails after K in [1,%d) bytes, first replacement's base after J in (K,%d] bytes (or not at all), second replacement complete; all chunkings into <=2 (thorough 3) pieces of each, reader and chunk-reader sources, every consumer that reads to the end (all offsets); every failure is recovered, so the consumer must complete with exactly the bytes it asked for", size, size))
+	sub := r.NewSub("nested-replacement", "venum", fmt.Sprintf("the replacement supplied by the outer handler is itself a buffer with an error handler whose base fails later: original fails after K in [1,%d) bytes, first replacement's base after J in (K,%d] bytes (or not at all), second replacement complete; all chunkings into <=2 (thorough 3) pieces of each, reader and chunk-reader sources, every consumer that reads to the end (all offsets); the sources fail with a status error or with exactly io.ErrUnexpectedEOF; every failure is recovered, so the consumer must complete with exactly the bytes it asked for", size, size))
 	done := sub.Timer()
 	outcomes := make([]map[string]struct{}, len(cases))
 	par.For(len(cases), func(i int) {
